@@ -37,6 +37,7 @@ inductive Instr where
   | drop | select | unreachable | ret
   | br (l : Nat) | brIf (l : Nat) | brTable (ls : List Nat) (d : Nat)
   | call (f : Nat) | callIndirect (ti : Nat)
+  | retCall (f : Nat)                          -- tail call: call, then return the callee's results
   | block (arity : Nat) (body : List Instr)
   | loop (body : List Instr)
   | ite (arity : Nat) (th el : List Instr)
@@ -270,6 +271,10 @@ def execInstr (m : Module) : Nat → Instr → Frame → Store → Ctl × Frame 
         execInstr m fuel (.block arity (if c % 2 ^ 32 != 0 then th else el)) fr st
       | _ => (.trap "stack", fr, st)
     | .call f => callFunc m fuel f fr st
+    | .retCall f =>
+      match callFunc m fuel f fr st with
+      | (.next, fr', st') => (.ret, fr', st')
+      | r => r
     | .callIndirect ti =>
       match fr.stack with
       | idx :: s =>
